@@ -17,7 +17,8 @@ let kv tok key =
   else failwith ("expected " ^ key ^ "= got " ^ tok)
 
 let flags_of_variant v =
-  if v = "repaired" then repaired else if v = "head" then head else failwith "variant"
+  if v = "repaired" then repaired else if v = "head" then head
+  else if v = "head_nots" then head_nots else if v = "head_nodedup" then head_nodedup else failwith "variant"
 
 let rec take k l = if k = 0 then ([], l) else match l with x :: r -> let (a, b) = take (k-1) r in (x :: a, b) | [] -> failwith "short"
 let rec drop k l = if k = 0 then l else match l with _ :: r -> drop (k-1) r | [] -> []
@@ -145,6 +146,7 @@ let run_coa fl toks impl =
     let segs = split_on_str " ; " impl in
     if List.length pk <> npk || List.length segs <> npk then "NOIMPL"
     else
+      let seen = ref [] in
       String.concat " ; " (List.map2 (fun p seg ->
           let get k = kv (List.find (fun t -> String.length t > String.length k && String.sub t 0 (String.length k + 1) = k ^ "=") p) k in
           match tokens seg with
@@ -154,7 +156,9 @@ let run_coa fl toks impl =
             let src = ip_of_string (get "src") in
             let bus = match get "bus" with "ok" -> 0 | "nf" -> 1 | "e0" -> 2 | _ -> 3 in
             let pre = nowt ^ " " ^ dgt ^ " " in
-            (match coa_step md5f fl cfg (z_of_int now) src (n_of_int bus) dg with
+            let (o, seen') = coa_step_st md5f fl cfg (z_of_int now) src (n_of_int bus) dg !seen in
+            seen := seen';
+            (match o with
              | ODropUnknown -> pre ^ "drop st=unknown1 ev=noev"
              | ODropInvalid (cl, st) -> pre ^ "drop st=" ^ show_stats (int_of_nat cl) st ^ " ev=noev"
              | OSilent _ -> pre ^ "silent st=none ev=noev"
